@@ -115,70 +115,7 @@ func runC10(p *eng.Prog, r *eng.Report, tier string) {
 		}
 	}
 
-	// ---- C10.2 closed bit before every write -------------------------------------
-	nfun := 0
-	for _, f := range c.allFns() {
-		if _, ok := negExempt[f.Short]; ok || f.Pkg.PkgPath != eng.ModPath {
-			continue
-		}
-		ws := encoderWrites(f)
-		if len(ws) == 0 || f.Short == "xmpp.(*Session).closeSession" {
-			continue
-		}
-		nfun++
-		g := f.Graph()
-		li := g.Locks(lockEntry[f.Short])
-		for _, w := range ws {
-			c.dom("C10.2", f, w, "write through the session encoder: "+f.CalleeID(w.(*ast.CallExpr)), []string{"!" + outClosed})
-		}
-		// the test is taken under stateMutex and its closed edge does not write
-		nt := 0
-		for _, ce := range g.EdgesMatching(outClosed) {
-			nt++
-			blk := g.Blocks[ce.E.B]
-			at := eng.Point{B: ce.E.B, I: len(blk.Nodes) - 1}
-			ls := li.At(at)
-			// a test through a local copy (closed := s.state&...) is located at the copy
-			held := ls.Has("xmpp.Session.stateMutex", false)
-			if !held {
-				for _, a := range ce.Atoms {
-					_ = a
-				}
-				for _, u := range fieldUsesIn(f, "xmpp.Session.state") {
-					if l2, ok := li.AtNode(u); ok && l2.Has("xmpp.Session.stateMutex", false) {
-						held = true
-					} else {
-						held = false
-						break
-					}
-				}
-			}
-			c.r.Check("C10.2", f, "closed-bit test", "L: the closed bit is read under stateMutex", blk.Nodes[len(blk.Nodes)-1].Pos(), held, "closed bit tested without stateMutex; lockset "+ls.String())
-			bad := ""
-			for _, nd := range g.ReachableNodes(g.EdgeTarget(ce.E), nil) {
-				for _, w := range ws {
-					if containsNode(nd, w) {
-						bad = "the closed edge reaches a write"
-					}
-				}
-			}
-			c.r.Check("C10.2", f, "closed edge", "G: once the output stream is closed the function returns without writing", blk.Nodes[len(blk.Nodes)-1].Pos(), bad == "", bad)
-			// and returns the closed error (or the original one in sendError)
-			for _, nd := range g.ReachableNodes(g.EdgeTarget(ce.E), nil) {
-				if rs, ok := nd.(*ast.ReturnStmt); ok {
-					okRet := false
-					if len(rs.Results) > 0 {
-						last := f.Norm(rs.Results[len(rs.Results)-1], nil)
-						okRet = last == "var:xmpp.ErrOutputStreamClosed" || (f.Short == "xmpp.(*Session).sendError" && last == "p0")
-					}
-					c.r.Check("C10.2", f, "closed edge result", "K: a transmit entry point fails with ErrOutputStreamClosed once closed (sendError hands back the original error)", rs.Pos(), okRet, "closed edge returns "+c.p.NodeStr(rs))
-					break
-				}
-			}
-		}
-		c.r.Floor("C10.2", "closed-bit tests in "+f.Short, nt, 1)
-	}
-	c.r.Floor("C10.2", "functions writing through the session encoder", nfun, 6)
+	closedBitBeforeWrites(c, "C10.2")
 
 	// ---- C10.3 reads ---------------------------------------------------------------
 	lr := c.fn("C10.3", "", "(*lockReadCloser).Token")
@@ -468,6 +405,7 @@ func runC10(p *eng.Prog, r *eng.Report, tier string) {
 	c10ReplyAfterClose(c, "C10.9")
 	lockOrder(c, "C10.10")
 	c10DeadlinePlumbing(c, "C10.11")
+	c.r.Floor("C10.12", "fmt.Errorf and errors.New calls examined in package xmpp", errorsKeepIdentity(c, "C10.12", []string{""}), 20)
 }
 
 func containsNode(root, n ast.Node) bool {
@@ -825,4 +763,85 @@ func c10DeadlinePlumbing(c *cx, id string) {
 		}
 		c.r.Check(id, f, "conn."+m+" forwards to conn."+fld, "K: the wrapper's "+m+" calls the stored "+fld+" function (and not the other one)", f.Pos(), calls >= 1 && other == "", "calls "+other)
 	}
+}
+
+// closedBitBeforeWrites (C10.2, shared with C05): every function outside
+// negotiation that writes through the session encoder tests the closed bit
+// under both locks on every path to the write.
+func closedBitBeforeWrites(c *cx, id string) {
+	// ---- C10.2 closed bit before every write -------------------------------------
+	nfun := 0
+	for _, f := range c.allFns() {
+		if _, ok := negExempt[f.Short]; ok || f.Pkg.PkgPath != eng.ModPath {
+			continue
+		}
+		ws := encoderWrites(f)
+		if len(ws) == 0 || f.Short == "xmpp.(*Session).closeSession" {
+			continue
+		}
+		nfun++
+		g := f.Graph()
+		li := g.Locks(lockEntry[f.Short])
+		for _, w := range ws {
+			c.dom(id, f, w, "write through the session encoder: "+f.CalleeID(w.(*ast.CallExpr)), []string{"!" + outClosed})
+		}
+		// the test is taken under stateMutex and its closed edge does not write
+		nt := 0
+		for _, ce := range g.EdgesMatching(outClosed) {
+			nt++
+			blk := g.Blocks[ce.E.B]
+			at := eng.Point{B: ce.E.B, I: len(blk.Nodes) - 1}
+			ls := li.At(at)
+			// a test through a local copy (closed := s.state&...) is located at the copy
+			held := ls.Has("xmpp.Session.stateMutex", false)
+			if !held {
+				for _, a := range ce.Atoms {
+					_ = a
+				}
+				for _, u := range fieldUsesIn(f, "xmpp.Session.state") {
+					if l2, ok := li.AtNode(u); ok && l2.Has("xmpp.Session.stateMutex", false) {
+						held = true
+					} else {
+						held = false
+						break
+					}
+				}
+			}
+			c.r.Check(id, f, "closed-bit test", "L: the closed bit is read under stateMutex", blk.Nodes[len(blk.Nodes)-1].Pos(), held, "closed bit tested without stateMutex; lockset "+ls.String())
+			// check-then-act: closeSession sets the bit with the output lock
+			// held, so the test decides about the write that follows only when
+			// the same lock is already held at the test.
+			outHeld := true
+			for _, u := range fieldUsesIn(f, "xmpp.Session.state") {
+				if l2, ok := li.AtNode(u); !ok || !l2.Has("xmpp.Session.out", true) {
+					outHeld = false
+				}
+			}
+			c.r.Check(id, f, "closed-bit test under the output lock", "L: the closed bit is read with Session.out held (taken by the function or required on entry), so a close cannot slip in between the test and the write", blk.Nodes[len(blk.Nodes)-1].Pos(), outHeld, "closed bit tested before the output lock is taken; lockset "+ls.String())
+			bad := ""
+			for _, nd := range g.ReachableNodes(g.EdgeTarget(ce.E), nil) {
+				for _, w := range ws {
+					if containsNode(nd, w) {
+						bad = "the closed edge reaches a write"
+					}
+				}
+			}
+			c.r.Check(id, f, "closed edge", "G: once the output stream is closed the function returns without writing", blk.Nodes[len(blk.Nodes)-1].Pos(), bad == "", bad)
+			// and returns the closed error (or the original one in sendError)
+			for _, nd := range g.ReachableNodes(g.EdgeTarget(ce.E), nil) {
+				if rs, ok := nd.(*ast.ReturnStmt); ok {
+					okRet := false
+					if len(rs.Results) > 0 {
+						last := f.Norm(rs.Results[len(rs.Results)-1], nil)
+						okRet = last == "var:xmpp.ErrOutputStreamClosed" || (f.Short == "xmpp.(*Session).sendError" && last == "p0")
+					}
+					c.r.Check(id, f, "closed edge result", "K: a transmit entry point fails with ErrOutputStreamClosed once closed (sendError hands back the original error)", rs.Pos(), okRet, "closed edge returns "+c.p.NodeStr(rs))
+					break
+				}
+			}
+		}
+		c.r.Floor(id, "closed-bit tests in "+f.Short, nt, 1)
+	}
+	c.r.Floor(id, "functions writing through the session encoder", nfun, 6)
+
 }
